@@ -98,6 +98,9 @@ def _desc(draw, kind=None):
         d["pseudo"] = ["CR", "CRP", "PHOTON", "CRPHOT"]
         d["replacement"] = {"E": "e", "HE": "He", "MG": "Mg", "SI": "Si", "CL": "Cl"}
         d["grain_model"] = "rr07x"
+        if draw(st.booleans()):
+            # the format has no reaction numbers: the key is the position in the file
+            d["rate_mod"] = {str(draw(st.integers(0, 2))): draw(st.sampled_from(["0.0", "2.5e-10"]))}
         for x in ices:
             if draw(st.booleans()):
                 d["binding"]["#" + x] = draw(st.sampled_from([960.0, 1234.5, 5773.0]))
@@ -146,7 +149,7 @@ def _case(draw):
     descs = [draw(_desc(k)) for k in kinds]
     ops = []
     for _ in range(draw(st.integers(3, 8))):
-        ops.append([draw(st.sampled_from(["build", "build_edit", "build_keep", "render_kept", "render_cli", "render_cli", "render_api", "render_api", "render_grown", "render_plus_after_export", "render_bare", "faulty_krome"])), draw(st.integers(0, nd - 1))])
+        ops.append([draw(st.sampled_from(["build", "build_edit", "build_keep", "render_kept", "render_cli", "render_cli", "render_api", "render_api", "render_grown", "render_plus_after_export", "render_bare", "faulty_krome", "render_objects_after_superset"])), draw(st.integers(0, nd - 1))])
     if not any(o[0].startswith("render") for o in ops):
         ops.append(["render_cli", 0])
     return {"descs": descs, "ops": ops}
@@ -311,6 +314,22 @@ def _do(op, desc, workdir, k, slot=0):
                 shutil.rmtree(Path(workdir) / "vtexp", ignore_errors=True)
             TemplateLoader(s, m, dv).render("vtproj", net, path=root)
             return _digest(root)
+        if op in ("render_objects", "render_objects_after_superset"):
+            # the reaction objects read from the file are handed to a second Network (a sub-network, a copy with other options, ...);
+            # whether a larger network holding the same objects was rendered before must not change what this one renders
+            kw = _network_kwargs(desc, fname)
+            objs = list(Network(**kw).reaction_list)
+            kw2 = {k_: v for k_, v in kw.items() if k_ not in ("filelist", "fileformats")}
+            s, m, dv = desc["backend"]
+            if op == "render_objects_after_superset":
+                sup = Network(reactions=[Reaction(["H", "H"], ["H2"], alpha=1.0e-17, reaction_type=ReactionType.GAS_TWOBODY)] + objs,
+                              **{k_: v for k_, v in kw2.items() if k_ not in ("rate_modifier", "allowed_species")})
+                other = Path(workdir) / f"op{k}_superset"
+                other.mkdir()
+                TemplateLoader(s, m, dv).render("vtproj", sup, path=other)
+            net = Network(reactions=objs, **kw2)
+            TemplateLoader(s, m, dv).render("vtproj", net, path=root)
+            return _digest(root)
         net = Network(**_network_kwargs(desc, fname))
         if op == "build":
             _ = net.species
@@ -369,6 +388,11 @@ def alone(desc, route, hashseed):
     return _ALONE[key]
 
 
+def _ref_route(op):
+    """The route that renders the same description alone (first thing in a fresh process)."""
+    return {"render_kept": "render_api", "render_grown": "render_api", "render_plus_after_export": "render_plus", "render_objects_after_superset": "render_objects"}.get(op, op)
+
+
 def differs(a, b):
     keys = ("elements", "pseudo", "replacement", "surface", "binding", "yields")
     return any(a[k] != b[k] for k in keys)
@@ -385,7 +409,7 @@ def check_case(case, tier):
     seen_ops = []
     for k, ((op, i), dg) in enumerate(zip(ops, got)):
         if op.startswith("render"):
-            ref = alone(descs[i], "render_api" if op in ("render_kept", "render_grown") else "render_plus" if op == "render_plus_after_export" else op, 0)
+            ref = alone(descs[i], _ref_route(op), 0)
             prev_other = [(o, j) for o, j in seen_ops if j != i and differs(descs[i], descs[j])]
             if prev_other:
                 nontrivial = True
@@ -406,6 +430,13 @@ def check_case(case, tier):
                                          f"op#{k}: network of {descs[i]['kind']} built at op#{kb}, then {between} installed other element lists / replacement / binding tables, then rendered: digest {dg} vs {ref} alone"))
                         seen_ops.append((op, i))
                         continue
+                if op == "render_objects_after_superset" and alone(descs[i], "render_objects_after_superset", 0) == dg:
+                    # (the same operation alone in a fresh process already differs: the earlier operations of the scenario are not needed)
+                    failures.append(("determinism/reaction-objects-shared-with-a-rendered-network",
+                                     f"op#{k}: Network(reactions=objs) of {descs[i]['kind']} rendered after a larger network holding the same Reaction objects was rendered: "
+                                     f"digest {dg} vs {ref} without that earlier rendering (rate modifiers {descs[i]['rate_mod']})"))
+                    seen_ops.append((op, i))
+                    continue
                 if op == "render_bare" and prev_other:
                     failures.append(("determinism/bare-network-inherits-foreign-symbol-tables",
                                      f"op#{k}: Network(...) of {descs[i]['kind']} (default symbol lists, no tables of its own) built after {sorted({descs[j]['kind'] for _, j in prev_other})} had installed their element lists / replacement table / binding energies: {'raises ' + str(dg)[7:] if str(dg).startswith('raised') else 'digest ' + str(dg)} vs {ref} when built first in a fresh process"))
@@ -416,7 +447,7 @@ def check_case(case, tier):
         seen_ops.append((op, i))
     # hash-seed independence of the alone rendering
     for i, d in enumerate(descs):
-        for route in sorted({("render_api" if op in ("render_kept", "render_grown") else "render_plus" if op == "render_plus_after_export" else op) for op, j in ops if j == i and op.startswith("render")}):
+        for route in sorted({_ref_route(op) for op, j in ops if j == i and op.startswith("render")}):
             base = alone(d, route, 0)
             if str(base).startswith(("raised", "status")):
                 continue
